@@ -3,6 +3,8 @@ from __future__ import print_function
 
 import sys
 
+import numpy as np
+
 from vlib import gen, model, ops, oracles, check_common as cc
 
 PROPERTY = "C03"
@@ -99,7 +101,96 @@ def run_records(ctx, case):
             return
 
 
+NONE_REDUCERS = ["sum", "prod", "count", "count_nonzero", "any", "all", "min", "max"]
+
+
+def _gen_axis_none(rng, tier):
+    """lane P only: ak.<reducer>(x, axis=None) combines every leaf of the array, whatever lists, records, unions or
+    options lie above them (the Python layer flattens completely and combines the pieces)"""
+    cfg = gen.Cfg(tier, strings=False, categorical=False)
+    cfg.nan = cfg.inf = cfg.unknown = cfg.extremes = False
+    cfg.dtypes = ["int64", "int32", "int8", "uint8"]
+    cfg.records = rng.random() < 0.6
+    cfg.unions = rng.random() < 0.3
+    if rng.random() < 0.5:
+        # several pieces for certain: a record of 2-3 fields, possibly inside lists
+        k = rng.choice([2, 2, 3])
+        T = {"t": "record", "keys": ["x", "y", "z"][:k], "fields": [gen.gen_type(rng, cfg) for _ in range(k)]}
+        for _ in range(rng.choice([0, 1, 1, 2])):
+            T = {"t": "list", "e": T}
+        T, vals, d = gen.layout(rng, cfg, T=T)
+    else:
+        T, vals, d = gen.layout(rng, cfg)
+    return {"T": T, "layout": d, "lane": "P", "mode": "axis-none",
+            "op": {"op": "reduce", "name": rng.choice(NONE_REDUCERS), "axis": None}}
+
+
+def _all_leaves(v, out):
+    if v is None:
+        return out
+    if isinstance(v, (list, tuple)):
+        for x in v:
+            _all_leaves(x, out)
+    elif isinstance(v, dict):
+        for x in v.values():
+            _all_leaves(x, out)
+    else:
+        out.append(v)
+    return out
+
+
+def run_axis_none(ctx, case):
+    from vlib import lanep_util
+    ak, P = lanep_util.setup(ctx)
+    d, name = case["layout"], case["op"]["name"]
+    v = model.value(d)
+    leaves = [int(x) for x in _all_leaves(v, [])]
+    ctx.cover("lane", "P-axis-none")
+    ctx.cover("reducer", name)
+    ctx.cover("axis_none_pieces", ("records" if _has_record(case["T"]) else "") + ("+union" if "U[" in gen.typestr(case["T"]) else "") or "plain")
+    for c in model.classes(d):
+        ctx.cover("input_classes", c)
+    ctx.nontrivial(len(leaves) > 0)
+    try:
+        got = getattr(ak, name)(P.array(d), axis=None)
+    except Exception as e:     # noqa
+        ctx.violation("unexpected-error", {"op": case["op"], "lane": "P", "got": "%s: %s" % (type(e).__name__, " ".join(str(e).split())[:200]),
+                                           "type": gen.typestr(case["T"]), "input": model.brief(v, 200)})
+        return
+
+    def wrap(x):
+        x &= (1 << 64) - 1
+        return x - (1 << 64) if x >= (1 << 63) else x
+    if name == "sum":
+        exp = wrap(sum(leaves))
+    elif name == "prod":
+        exp = 1
+        for x in leaves:
+            exp = wrap(exp * x)
+    elif name == "count":
+        exp = len(leaves)
+    elif name == "count_nonzero":
+        exp = sum(1 for x in leaves if x != 0)
+    elif name == "any":
+        exp = any(x != 0 for x in leaves)
+    elif name == "all":
+        exp = all(x != 0 for x in leaves)
+    else:
+        exp = (min(leaves) if name == "min" else max(leaves)) if leaves else None
+    if got is not None and not isinstance(got, (bool, np.bool_)):
+        got = int(got)
+    elif got is not None:
+        got = bool(got)
+    if got != exp:
+        ctx.violation("wrong-value", {"op": case["op"], "lane": "P", "expected": exp, "got": got,
+                                      "type": gen.typestr(case["T"]), "input": model.brief(v, 300)})
+        return
+    ctx.count("axis_none_values_agree")
+
+
 def gen_case(rng, tier, index):
+    if index % 9 == 4:
+        return _gen_axis_none(rng, tier)
     if index % 8 == 5:
         case = _gen_records(rng, tier, rng.choice(ops.REDUCERS))
         if case:
@@ -148,6 +239,8 @@ def _leaf(T):
 def run_case(ctx, case):
     if case.get("mode") == "records":
         return run_records(ctx, case)
+    if case.get("mode") == "axis-none":
+        return run_axis_none(ctx, case)
     b = ctx.lib
     d = case["layout"]
     v = model.value(d)
